@@ -329,6 +329,61 @@ def rt_unifiable(t1, t2):
     return True
 
 
+def head_string_meets_compound(t1, t2):
+    """does unifying t1 with the clause-head term t2 ever compare a string segment of the head
+    (a cons cell of t2 whose head is a one-char atom; compiled to get_partial_string) with a
+    compound term whose functor is not '.'/2?  Walks all argument pairs with a union-find and
+    does not stop at clashes.  Used only to give finding C10-1 its narrow signature."""
+    parent, node = {}, {}
+
+    def mk(t, origin):
+        if t[0] == 'v':
+            key = ('v', t[1])
+            if key not in node:
+                node[key] = (t, [], None)
+                parent[key] = key
+            return key
+        kids = [mk(a, origin) for a in t[2]] if t[0] == 's' else []
+        key = ('n', len(node))
+        node[key] = (t, kids, origin)
+        parent[key] = key
+        return key
+
+    def find(k):
+        while parent[k] != k:
+            parent[k] = parent[parent[k]]
+            k = parent[k]
+        return k
+
+    def is_head_string(k):
+        t, _, origin = node[k]
+        return origin == 2 and t[0] == 's' and t[1] == '.' and len(t[2]) == 2 and is_char(t[2][0])
+
+    def is_other_compound(k):
+        t = node[k][0]
+        return t[0] == 's' and not (t[1] == '.' and len(t[2]) == 2)
+
+    st = [(mk(t1, 1), mk(t2, 2))]
+    while st:
+        a, b = st.pop()
+        a, b = find(a), find(b)
+        if a == b:
+            continue
+        ta, ka, _ = node[a]
+        tb, kb, _ = node[b]
+        if ta[0] == 'v':
+            parent[a] = b
+        elif tb[0] == 'v':
+            parent[b] = a
+        else:
+            if (is_head_string(a) and is_other_compound(b)) or (is_head_string(b) and is_other_compound(a)):
+                return True
+            if ta[0] == 's' and tb[0] == 's' and ta[1] == tb[1] and len(ka) == len(kb):
+                parent[a] = b
+                st.extend(zip(ka, kb))
+    return False
+
+
 # ------------------------------------------------------------------ generators
 
 VARS = ["V0", "V1", "V2", "V3", "V4", "V5"]
@@ -437,9 +492,20 @@ def mutate(rng, t, nv, p):
             return gen_var(rng, nv)
         return t
     if k == 's':
-        if rng.random() < 0.03:
+        r2 = rng.random()
+        if r2 < 0.02:
             f, n = rng.choice(FUNCTORS)
             return ('s', f, [gen_term(rng, 1, nv) for _ in range(n)])
+        if r2 < 0.04:
+            # same arguments, other name of the same arity (or a list cell for arity 2)
+            if len(t[2]) == 2 and rng.random() < 0.5:
+                return ('lst', [t[2][0]], t[2][1]) if t[1] != '.' else ('s', '-', list(t[2]))
+            return ('s', rng.choice(["f", "g", "h", "k"]), list(t[2]))
+        if r2 < 0.06:
+            # one argument more / one less
+            if len(t[2]) > 1 and rng.random() < 0.5:
+                return ('s', t[1], list(t[2][:-1]))
+            return ('s', t[1], list(t[2]) + [gen_term(rng, 0, nv)])
         return ('s', t[1], [mutate(rng, a, nv, p) for a in t[2]])
     if k in ('str', 'lst'):
         t = respell(rng, t)
@@ -455,6 +521,10 @@ def mutate(rng, t, nv, p):
                 tl = gen_var(rng, nv)
             return ('str', s, tl) if s else (tl or nil())
         if t[0] == 'lst':
+            if rng.random() < 0.04:
+                # a list cell against a binary compound with the same arguments
+                rest = ('lst', t[1][1:], t[2]) if len(t[1]) > 1 else (t[2] if t[2] is not None else nil())
+                return ('s', rng.choice(["-", "f", "h"]), [t[1][0], rest])
             tl = t[2]
             if tl is not None:
                 tl = mutate(rng, tl, nv, p)
@@ -869,8 +939,13 @@ def judge(c, impl, model):
             elif res[0] == 'n' and not variant(res[2], orig):
                 prob = ("binding", "failed unification left bindings behind")
         if prob:
-            sig = {"family": "unify", "pred": pred, "flag": flag, "model": mo, "problem": prob[0],
-                   "t1": c["t1"][:120], "t2": c["t2"][:120], "shape": shape_key(c)}
+            if pred == "head" and prob[0] in ("success", "not-identical", "binding") and \
+                    head_string_meets_compound(orig[2][0], orig[2][1]):
+                # finding C10-1: get_partial_string accepts any compound as a list cell
+                sig = {"family": "unify", "pred": "head", "defect": "head-string-meets-compound"}
+            else:
+                sig = {"family": "unify", "pred": pred, "flag": flag, "model": mo, "problem": prob[0],
+                       "t1": c["t1"][:120], "t2": c["t2"][:120], "shape": shape_key(c)}
             out.append(("violation", sig, prob[1]))
     return out, mo
 
@@ -892,7 +967,11 @@ def directed_cases():
         (('ri', 5, rt_int_expr(5)), ('i', 5)), (('i', 5), ('ri', 5, rt_int_expr(5))),
         (('i', 2 ** 55), ('ri', 2 ** 55, rt_int_expr(2 ** 55))), (('i', big), ('i', big + 1)),
         (('i', big), ('f', float(big))), (('q', 1, 3), ('q', 1, 3)), (('q', 1, 3), ('q', 2, 3)),
-        (('q', 1, 3), ('i', 1)), (('q', 1, 3), ('f', 1.0)), (('f', 0.1), ('f', 0.1)), (('f', 1.5), ('f', 2.0)),
+        (('q', 1, 3), ('i', 1)), (('q', 1, 3), ('f', 1.0)), (('i', 1), ('q', 1, 3)), (('f', 1.0), ('q', 1, 3)),
+        (('i', big), ('q', big, 3)), (('q', big, 3), ('i', big)), (('q', 1, 3), ('a', 'a')), (('a', 'a'), ('i', 1)),
+        (('lst', [A], B), ('s', '-', [A, B])), (('s', '-', [A, B]), ('lst', [A], B)),
+        (('lst', [('a', 'a')], B), f(A, B)), (f(A, B), ('lst', [('a', 'a')], B)),
+        (('str', "ab", None), f(A, B)), (f(A, B), ('str', "ab", None)), (f(A, B), f(A, B, C)), (f(A, B, C), f(A, B)), (('f', 0.1), ('f', 0.1)), (('f', 1.5), ('f', 2.0)),
         (('str', "abc", None), ('lst', [('a', 'a'), ('a', 'b'), ('a', 'c')], None)),
         (('str', "abc", None), ('lst', [('a', 'a')], A)), (('str', "abc", A), ('str', "ab", B)),
         (('str', "abc", A), ('str', "abd", B)), (('str', "ab", A), ('str', "abc", A)),
@@ -930,6 +1009,14 @@ def run(ctx):
             hide = "all" if unprintable(mv) else ("cyclic" if mv == "cyclic" else False)
             cases.append(make_case(c0["id"], t1, t2, sh, fam, hide, hd) if hide else c0)
     impl, model = diff.run_cases(cases)
+    # a loaded machine can make the 10 s watchdog fire: a `timeout` (or a missing answer) is
+    # inconclusive; such cases are re-run serially with a long watchdog before they are judged
+    retried = 0
+    for c in cases:
+        r = impl.get(c["id"])
+        if r is None or r.startswith("timeout") or r.startswith("abort") or r.startswith("skipped"):
+            retried += 1
+            impl.update(core.run_impl(c["impl"], env={"SV_TIMEOUT_MS": "120000"}))
     findings = []
     agree = 0
     outcomes = {"ok": 0, "clash": 0, "cyclic": 0}
@@ -972,6 +1059,7 @@ def run(ctx):
         "families": fam_count,
         "bindings_histogram": nbind_hist,
         "results_not_printed_pstr_atom_tail": hidden,
+        "timeouts_rerun_serially": retried,
         "exhaustive": False,
         "findings": findings,
     }
